@@ -144,11 +144,20 @@ func (d *Driver) Park(actor string, class simfs.OpClass, detail string) {
 
 // ParkUntil implements simfs.Parker.
 func (d *Driver) ParkUntil(actor string, class simfs.OpClass, detail string, enabled func() bool) {
+	if !InBubble() {
+		// A goroutine that does not belong to any bubble (leaked by an
+		// earlier, unscheduled run and only now getting CPU time) reached a
+		// global hook: it is not part of this simulation.
+		return
+	}
 	name, anon := d.taskName(actor, string(class), detail)
 	r := &request{task: name, class: string(class), detail: detail, enabled: enabled, grant: make(chan bool, 1), anon: anon}
 	d.mu.Lock()
 	if d.aborting {
 		d.mu.Unlock()
+		if anon {
+			return // a goroutine go-git started itself: let it run on unscheduled
+		}
 		panic(abortRun{})
 	}
 	d.seq++
@@ -160,9 +169,17 @@ func (d *Driver) ParkUntil(actor string, class simfs.OpClass, detail string, ena
 	default:
 	}
 	if ok := <-r.grant; !ok {
+		if anon {
+			return
+		}
 		panic(abortRun{})
 	}
 }
+
+// InBubble reports whether the calling goroutine runs inside a synctest
+// bubble: the bubble's fake clock starts at 2000-01-01, the real clock is
+// decades later.
+func InBubble() bool { return time.Now().Year() < 2015 }
 
 // Yield is a pure scheduling point for harness code.
 func (d *Driver) Yield(site string) { d.ParkUntil("", "yield", site, nil) }
